@@ -993,13 +993,13 @@ def run(ctx):
         ctx.violation({"layer": "harness build against /repo", "error": binp},
                       "harness no longer builds against the implementation", no_input=True)
         return
-    n = 260 if ctx.quick else 2500
+    n = 160 if ctx.quick else 1200
     seed = ctx.seed
     rp = None
     if getattr(ctx, "replay", None):
         rp = json.load(open(ctx.replay)).get("replay", {})
         seed = rp.get("seed", seed)
-        n = 260 if rp.get("tier", "quick") == "quick" else 2500
+        n = 160 if rp.get("tier", "quick") == "quick" else 1200
     g = G(seed)
     scripts = g.scripts(n)
     if rp is not None and "script_id" in rp:
@@ -1086,7 +1086,7 @@ def run(ctx):
                     stats["unspecified_runs"] += 1
                 if sc["pre_violation"]:
                     stats["precondition_fault_runs"] += 1
-                diffs = compare(sc, e, m, r) + direct_oracles(sc, e, r)
+                diffs = direct_oracles(sc, e, r) + compare(sc, e, m, r)
                 # digests: recompute independently and compare with what the run used
                 for (k, d_), used_d in zip(m["hashes"], dg[sc["id"]]):
                     stats["hash_calls_checked"] += 1
